@@ -595,6 +595,7 @@ func buildVariant(v V, seed int, counter *int) any {
 		for i, e := range v.L {
 			elems[i] = buildVariant(e, seed, counter)
 		}
+		concatTwins(v.L, elems, seed, id)
 		route := 0
 		if seed != 0 {
 			route = mix(seed, id) % numListRoutes
@@ -603,9 +604,12 @@ func buildVariant(v V, seed int, counter *int) any {
 	case KObject:
 		o := at.NewObject()
 		vals := make([]any, len(v.O))
+		kids := make([]V, len(v.O))
 		for i, p := range v.O {
 			vals[i] = buildVariant(p.V, seed, counter)
+			kids[i] = p.V
 		}
+		concatTwins(kids, vals, seed, id)
 		if seed != 0 && mix(seed, id)%3 == 0 {
 			m := make(map[string]any, len(v.O))
 			for i, p := range v.O {
@@ -806,4 +810,50 @@ func sortedV(v V) V {
 		sort.Slice(out.O, func(i, j int) bool { return out.O[i].K < out.O[j].K })
 	}
 	return out
+}
+
+// concatTwins: when a later sibling is a scalar-only list that starts with the content of an earlier
+// scalar-only sibling list, it is (for some seeds) rebuilt as earlier.Concat(rest), so that the tree
+// holds a list together with a list derived from it.
+func concatTwins(kids []V, built []any, seed, id int) {
+	if seed == 0 || mix(seed, id+3)%2 == 0 {
+		return
+	}
+	scalarList := func(v V) bool {
+		if v.K != KList || len(v.L) == 0 {
+			return false
+		}
+		for _, e := range v.L {
+			if e.K == KList || e.K == KObject {
+				return false
+			}
+		}
+		return true
+	}
+	for j := 1; j < len(kids); j++ {
+		if !scalarList(kids[j]) {
+			continue
+		}
+		for i := 0; i < j; i++ {
+			if !scalarList(kids[i]) || len(kids[i].L) > len(kids[j].L) {
+				continue
+			}
+			prefix := true
+			for k := range kids[i].L {
+				if !EqVBits(kids[i].L[k], kids[j].L[k]) {
+					prefix = false
+					break
+				}
+			}
+			if !prefix {
+				continue
+			}
+			rest := at.NewList()
+			for _, e := range kids[j].L[len(kids[i].L):] {
+				rest.Add(Build(e))
+			}
+			built[j] = built[i].(at.List).Concat(rest)
+			break
+		}
+	}
 }
